@@ -11,6 +11,7 @@ import (
 	"os"
 	"reflect"
 	"sync"
+	"sync/atomic"
 	"testing"
 	"time"
 
@@ -337,6 +338,80 @@ func TestEchConfigCases(t *testing.T) {
 			}
 		}
 	}()
+	// the largest configs: contents of 65532 .. 65535 bytes (a very long public key field) encode and parse back
+	for _, total := range []int{65531, 65532, 65533, 65535} {
+		name := []byte("big.example")
+		fixed := 1 + 2 + 2 + 2 + 4 + 1 + 1 + len(name) + 2
+		sp := ech.ConfigSpec{Version: 0xfe0d, ID: 9, KEM: 0x20, PublicKey: bytes.Repeat([]byte{0x42}, total-fixed), CipherSuites: []ech.CipherSuite{{KDF: 1, AEAD: 1}}, PublicName: name}
+		nStruct++
+		func() {
+			defer func() {
+				if p := recover(); p != nil {
+					bad++
+					w.Write(Ev{"kind": "maxsize", "node": total, "diff": fmt.Sprint("panic: ", p)})
+				}
+			}()
+			enc, err := sp.Bytes()
+			if err != nil {
+				return // refusing to build such a config is fine
+			}
+			back, err := ech.Config(enc).Spec()
+			if err != nil || len(back.PublicKey) != len(sp.PublicKey) || string(back.PublicName) != string(name) {
+				bad++
+				w.Write(Ev{"kind": "maxsize", "node": total, "diff": fmt.Sprintf("a config with %d bytes of contents, produced by ConfigSpec.Bytes, does not parse back: err=%v", len(enc)-4, err)})
+				return
+			}
+			if l, err := ech.ConfigList([]ech.Config{enc}); err == nil {
+				if specs, err := ech.ParseConfigList(l); err != nil || len(specs) != 1 {
+					bad++
+					w.Write(Ev{"kind": "maxsize", "node": total, "diff": fmt.Sprintf("ConfigList of one %d-byte config parses back to %d configs, err=%v", len(enc), len(specs), err)})
+				}
+			}
+		}()
+	}
+	// Bytes / NewConfig / ConfigList from several goroutines at once give what they give one after the other
+	{
+		var specs []ech.ConfigSpec
+		var want [][]byte
+		for i := 0; i < 40; i++ {
+			sp := ech.ConfigSpec{Version: 0xfe0d, ID: uint8(i), KEM: 0x20, PublicKey: bytes.Repeat([]byte{byte(i + 1)}, 32), CipherSuites: []ech.CipherSuite{{KDF: 1, AEAD: uint16(1 + i%3)}}, PublicName: bytes.Repeat([]byte{byte('a' + i%26)}, 1+i*6)}
+			b, err := sp.Bytes()
+			if err != nil {
+				continue
+			}
+			specs, want = append(specs, sp), append(want, b)
+		}
+		var wg sync.WaitGroup
+		var cbad atomic.Int64
+		for g := 0; g < 8; g++ {
+			wg.Add(1)
+			go func(g int) {
+				defer wg.Done()
+				defer func() { recover() }()
+				for round := 0; round < 200; round++ {
+					i := (g*7 + round) % len(specs)
+					b, err := specs[i].Bytes()
+					if err != nil || !bytes.Equal(b, want[i]) {
+						cbad.Add(1)
+						continue
+					}
+					if round%5 == 0 {
+						if _, c, err := ech.NewConfig(uint8(round), []byte("pub.example")); err != nil {
+							cbad.Add(1)
+						} else if s2, err := c.Spec(); err != nil || s2.ID != uint8(round) || string(s2.PublicName) != "pub.example" {
+							cbad.Add(1)
+						}
+					}
+				}
+			}(g)
+		}
+		wg.Wait()
+		nStruct += 1600
+		if n := cbad.Load(); n > 0 {
+			bad++
+			w.Write(Ev{"kind": "concurrent", "node": int(n), "diff": fmt.Sprintf("%d of 1600 ConfigSpec.Bytes / NewConfig calls made from eight goroutines at once gave a different (or unparseable) result than the same calls made one after the other", n)})
+		}
+	}
 	// the list length is a 16-bit field: a list that does not fit must be refused, not wrapped
 	for _, n := range []int{215, 216, 217, 300} {
 		one := encECHConfig(7, 0x20, bytes.Repeat([]byte{7}, 32), [][2]uint16{{1, 1}}, 30, bytes.Repeat([]byte("n"), 250))
